@@ -10,6 +10,35 @@ NOTES = ("All checks: `harness/check.py Cxx`. Each run re-extracts Generated/*.l
 NOT_APPLICABLE = {}
 
 CHECKS = {
+    "C06": {
+        "text": ("Lean model of the whole validation chain (TypeInfo stacks, ChainedVisitor/SkipNode semantics, all 26 rule visitors, VariablesCollector, fragment cycle search, "
+                 "field-merge search with its caches) whose rule list must equal SPECIFIED_RULES RE-EXTRACTED from validate.py each run (rules_match_source, decide); "
+                 "rule_*_iff for five rules (unique argument names, unique directives per location, single field subscriptions, known type names, variables are input types) on top of "
+                 "visitDocument_E (a non-skipping chain enters/leaves every node exactly once); verdict_iff_partial and perm_definitions_partial for those; machine-checked "
+                 "refutations of order-invariance for the UNFIXED collector (V3, V4). 21 rules are listed in Spec.Unproved. Tied by correspondence (verdict on every document; set of "
+                 "reporting rules on single-violation documents; every rule standalone) and the direct oracle: valid-by-construction => no error, each of 29 labelled single-rule "
+                 "violations => error attributable to that rule, verdict unchanged under the six transformations."),
+        "note": ("Trusted: Lean kernel; generators/injectors; is_subtype/types_overlap hand-modelled. Most rules and the alpha/perm invariances rest on the correspondence + oracle, not on "
+                 "theorems. Known finding V8 (list literal at non-list position accepted)."),
+        "technique": "Lean 4 proof (5 of 26 rules, chain walk) + full-chain model correspondence + labelled-violation/metamorphic oracle",
+    },
+    "C08": {
+        "text": ("Lean model of chain / unwrap_future / gather_futures (counter state machine) / asyncio gather_values and of the generic Executor over a simplified operation form with "
+                 "schedule-driven completion: gather_slots, gather_first_exception, chain_else, unwrap_*, gather_values_patch, schedule_independent, unexpected_surfaces (full); "
+                 "async_eq_blocking_partial (data and failure status equal the blocking executor's for every schedule; error-list permutation unproved), always_terminates_partial. "
+                 "Tied by running the REAL combinators/executors under a controlled scheduler (manual executor for the thread pool, harness-resolved futures on a private asyncio loop): "
+                 "all schedules for <=4/6 tasks, four configurations, pairwise equality oracle + trace correspondence, watchdog for hangs."),
+        "note": ("Trusted: Lean kernel; generators; asyncio task scheduling is only exercised. Residual that no model here exhibits: true parallel interleaving of callback bodies on "
+                 "worker threads (non-atomic `done += 1` in gather_futures) — touched only by a short real-thread smoke run."),
+        "technique": "Lean 4 proof (combinator state machines, schedule independence) + controlled-schedule exhaustive correspondence",
+    },
+    "C09": {
+        "text": ("execute_fields_serially as the code's state machine over the C08 algebra: keys_in_order, failure_does_not_stop, blocking_serial (full), serial_order_partial (the next "
+                 "top-level field cannot start while the current field's node holds an outstanding task; trace form kept visible). Tied by call/done event traces of the real executors under "
+                 "all completion orders (four configurations) and the direct trace-predicate oracle."),
+        "note": "Trusted: Lean kernel; generators. The transfer of serial_order from tree states to trace positions is unproved (checked on every generated trace).",
+        "technique": "Lean 4 proof (serial queue machine) + controlled-schedule trace oracle",
+    },
     "C04": {
         "text": ("Lean model of collect_fields (with the _seen_fragments quirk), _skip_selection, _fragment_type_applies, execute_fields, resolve_field, complete_value, "
                  "resolve_type and the error accumulator, and the spec's CollectFields/ExecuteSelectionSet/CompleteValue: skip_include, alias_merge, keys_document_order, "
